@@ -235,7 +235,7 @@ Lemma Rput_same nonorm (add : bool) r m c v :
   let m' := match cls_of HResp c with
             | COrd => if add then mm_add m c v' else mm_set_first m c v'
             | CSingle => mm_single m c v'
-            | CConn => mm_set_first m c v'
+            | CConn => mm_set_first m c (if hasHeaderValue v' strClose then strClose else v')
             | CNum => if is_int v' then mm_set_first m c v' else m
             | CJar => m ++ map (fun s => (c, s)) (cookie_pairs v')
             | CSetCookie => mm_add m c v'
@@ -635,7 +635,7 @@ Lemma Qput_same nonorm (add : bool) q m c v :
   let m' := match cls_of HReq c with
             | COrd => if add then mm_add m c v' else mm_set_first m c v'
             | CSingle => mm_single m c v'
-            | CConn => mm_set_first m c v'
+            | CConn => mm_set_first m c (if hasHeaderValue v' strClose then strClose else v')
             | CNum => if is_int v' then mm_set_first m c v' else m
             | CJar => m ++ map (fun s => (c, s)) (cookie_pairs v')
             | CSetCookie => mm_add m c v'
